@@ -624,7 +624,8 @@ class Scratch:
       self.dir = None
 
 
-def restart_model(model, route, scratch, simfile_kw=None, compile_load=False):
+def restart_model(model, route, scratch, simfile_kw=None, compile_load=False,
+                  include_optimizer=False):
   """Rebuild the model from durable state only.  No custom objects passed."""
   tf = tf_setup()
   import h5py
@@ -637,12 +638,12 @@ def restart_model(model, route, scratch, simfile_kw=None, compile_load=False):
     return qu.clone_model(model)
   if route == "h5_path":
     p = scratch.path("model.h5")
-    model.save(p, include_optimizer=False)
+    model.save(p, include_optimizer=include_optimizer)
     return qu.load_qmodel(p, compile=compile_load)
   if route == "h5_fileobj":
     sf = SimFile(**(simfile_kw or {}))
     with h5py.File(sf, "w") as f:
-      model.save(f, include_optimizer=False)
+      model.save(f, include_optimizer=include_optimizer)
     data = bytes(sf.buf)
     with h5py.File(SimFile(data), "r") as f:
       return qu.load_qmodel(f, compile=compile_load)
